@@ -48,6 +48,11 @@ CLAIMED.update({
             "note": "PARTIAL: the handler (length bounds 1..=63, echo text, 204 status) runs on http::HeaderMap/HeaderValue/response::Builder, which did not finish under CBMC; mutations there are not detected."},
 })
 
+CLAIMED.update({
+    "C42": {"text": "Hook-list kernel (after the handshake): for lists of 0, 2 and 3 hooks with every accept/reject pattern and arbitrary error codes, EndpointHooksList::after_handshake returns the first rejecting hook's error code and reason (else Accept), consults hooks in installation order and none after the first rejection.",
+            "note": "PARTIAL: before_connect's identical loop did not finish under CBMC; the call sites in connect_with_opts / conn_from_noq_conn, the self-connect and empty-ALPN checks need a bound Endpoint / live connection and are by reading."},
+})
+
 NA_WALL12 = "needs live tokio tasks/timers/channels (thread-locals with destructors make kani-compiler 0.68 ICE; Kani does not model concurrency): no decisive kernel can be symbolically executed"
 PENDING = "harness not built yet in this revision (planned, DESIGN.md section 4); not claimed until its check exists and passes"
 NOT_APPLICABLE = {
@@ -70,6 +75,9 @@ NOT_APPLICABLE = {
 NOT_APPLICABLE["C12"] = "ClientRequest::auth_token walks http::HeaderMap::get_all and url::form_urlencoded::parse: HeaderMap insertion/hashing did not finish under CBMC within 200 s even for one empty header value (same wall as C13's handler), and percent-decoding allocates by symbolic length"
 NOT_APPLICABLE["C15"] = "the only decisive synchronous kernel (pop_family) works on a VecDeque: VecDeque::remove at a symbolic index exhausts CBMC (26 GB at 2 elements) and even fully concrete 2-3 element queues did not finish in 15 min; the dialing loop itself is tokio timers/TcpStream/select!"
 NOT_APPLICABLE["C20"] = "Builder::bind_addr_with_opts takes the Builder by value: its drop glue statically reaches thread-locals with destructors (DNS resolver / tokio), which makes kani-compiler 0.68 panic (intrinsics.rs:243) for any harness that reaches the function, even with an uninitialised Builder; the order dependence found by reading was repaired (see DESIGN section 5) but is not decided by a check"
-for _p in ["C01","C13","C17","C22","C23","C24","C29","C30","C31","C42"]:
+NOT_APPLICABLE["C22"] = "RemotePathState keeps its paths in FxHashMap<transports::Addr, PathState>: hashbrown insertion/lookup does not finish under CBMC (a 2-element map with concrete keys timed out at 150 s), so neither the resolve/answer protocol nor the never-empty invariant can be executed"
+NOT_APPLICABLE["C23"] = "prune_non_relay_paths works on FxHashMap<transports::Addr, PathState> with >= 30 entries plus a std HashSet and a sort: hashbrown does not finish under CBMC even for 2 concrete entries; the deviation found by reading (keeps len-10, not 10, inactive paths; pinned by test_prune_mixed_must_and_can_prune) is recorded in DESIGN section 5 as an observation only"
+NOT_APPLICABLE["C24"] = "BiasedRttPathSelector::select needs a PathSelectionContext, which outside cfg(test) can only be built from live noq connections (FxHashMap<ConnId, ConnectionState>, weak connection handles), and its bias table is an FxHashMap (hashbrown does not finish under CBMC)"
+for _p in ["C01","C17","C29","C30","C31"]:
     NOT_APPLICABLE.setdefault(_p, PENDING)
 
